@@ -15,6 +15,7 @@ from .core import cps, digits
 NONE = [-1]
 CODECS = ("quote", "quotent", "list", "set", "dict", "options", "etags", "range", "crange", "age", "csp", "date",
           "ifrange", "cc", "authz", "wwwauth")
+CODECS2 = ("cachecontrol", "basic", "authparam")  # second layer (HeaderCodec2.tla); "options2231" is parse-side only (nf)
 MODEL_CODECS = ("quote", "list", "dict", "options", "etags", "range", "crange", "age", "csp", "date")
 
 
@@ -37,6 +38,28 @@ def eT(s):
 
 def eN(n):
     return list(NONE) if n is None else digits(n)
+
+
+def tv(x):
+    """typed cache-control property value -> [k, t] (HeaderCodec2.tla: TV)"""
+    if x is None:
+        return {"k": "none", "t": []}
+    if x is True or x is False:
+        return {"k": "true" if x else "false", "t": []}
+    if isinstance(x, int):
+        return {"k": "int" if x >= 0 else "nint", "t": digits(abs(x))}
+    if isinstance(x, str):
+        return {"k": "str", "t": cps(x)}
+    return {"k": "other", "t": cps(repr(x))}
+
+
+def untv(a):
+    k = a["k"]
+    if k in ("none", "true", "false"):
+        return {"none": None, "true": True, "false": False}[k]
+    if k in ("int", "nint"):
+        return N(a["t"]) * (1 if k == "int" else -1)
+    return T(a["t"])
 
 
 def _pairs(d):
@@ -71,9 +94,10 @@ CC_PROPS = {
 class Codec:
     """mk(j, variant) -> python value; dump(obj) -> str; parse(str) -> obj; proj(obj) -> JSON shape"""
 
-    def __init__(self, name):
+    def __init__(self, name, variant=""):
         self.name = name
-        self.cls = ""
+        self.variant = variant
+        self.cls = variant if name in ("authparam", "cachecontrol") else ""
 
     # -- construction of the python value from the JSON shape
     def mk(self, j, variant=""):
@@ -113,8 +137,18 @@ class Codec:
             for name, kind, val in j["set"]:
                 setattr(cc, name, {"bool": lambda: True, "int": lambda: N(val), "str": lambda: T(val)}[kind]())
             return cc
-        if n in ("authz", "wwwauth"):
-            cls = ds.Authorization if n == "authz" else ds.WWWAuthenticate
+        if n == "cachecontrol":
+            self.cls = j["cls"]
+            if j["cls"] == "req":
+                return ds.RequestCacheControl([(T(k), T(v)) for k, v in j["items"]])
+            cc = ds.ResponseCacheControl()
+            for attr, a in j["assigns"]:
+                setattr(cc, T(attr), untv(a))
+            return cc
+        if n == "authparam":
+            self.cls = j["cls"]
+        if n in ("authz", "wwwauth", "basic", "authparam"):
+            cls = ds.Authorization if n in ("authz", "basic") or (n == "authparam" and j["cls"] == "authz") else ds.WWWAuthenticate
             params = {T(k): T(v) for k, v in j["params"]}
             return cls(T(j["type"]), params, T(j["token"]))
         raise KeyError(n)
@@ -129,7 +163,7 @@ class Codec:
             return http.quote_header_value(o, allow_token=False)
         if n in ("list", "dict"):
             return http.dump_header(o)
-        if n == "options":
+        if n in ("options", "options2231"):
             return http.dump_options_header(o[0], o[1])
         if n == "age":
             return http.dump_age(o)
@@ -150,8 +184,14 @@ class Codec:
             return http.parse_set_header(s)
         if n == "dict":
             return http.parse_dict_header(s)
-        if n == "options":
+        if n in ("options", "options2231"):
             return http.parse_options_header(s)
+        if n == "cachecontrol":
+            return http.parse_cache_control_header(s, cls=ds.RequestCacheControl if self.cls == "req" else ds.ResponseCacheControl)
+        if n == "basic" or (n == "authparam" and self.cls == "authz"):
+            return ds.Authorization.from_header(s)
+        if n == "authparam":
+            return ds.WWWAuthenticate.from_header(s)
         if n == "etags":
             return http.parse_etags(s)
         if n == "range":
@@ -184,8 +224,19 @@ class Codec:
             return [eT(x) for x in o]
         if n in ("dict", "csp"):
             return _pairs(o)
-        if n == "options":
+        if n in ("options", "options2231"):
             return {"main": eT(o[0]), "opts": _pairs(o[1])}
+        if n == "cachecontrol":
+            kind = "req" if isinstance(o, ds.RequestCacheControl) else "resp"
+            return {"cls": kind, "assigns": [], "props": [[cps(p), tv(getattr(o, p))] for p in CC_PROPS[kind]], "items": _pairs(o)}
+        if n in ("basic", "authparam"):
+            if o is None:
+                r = {"none": True, "type": [], "token": list(NONE), "params": []}
+            else:
+                r = {"none": False, "type": eT(o.type), "token": eT(o.token), "params": _pairs(o.parameters)}
+            if n == "authparam":
+                r["cls"] = self.cls
+            return r
         if n == "etags":
             return {"star": bool(o.star_tag), "strong": sorted(eT(x) for x in o._strong), "weak": sorted(eT(x) for x in o._weak)}
         if n == "range":
@@ -226,7 +277,7 @@ class Codec:
 
 def run_case(case):
     """Execute one case on the real code; returns the trace line (without t / i)."""
-    c = Codec(case["codec"])
+    c = Codec(case["codec"], case.get("variant", ""))
     ph = c.placeholder()
     rec = {"op": case["op"], "codec": case["codec"], "v": ph, "dumped": [], "parsed": ph, "redumped": [], "reparsed": ph,
            "err": "", "err2": ""}
@@ -235,6 +286,8 @@ def run_case(case):
         obj = c.mk(case["j"], case.get("variant", ""))  # an exception here is a harness error (value outside the constructor's domain)
         like = obj
         rec["v"] = c.proj(obj)
+        if case["codec"] == "cachecontrol":
+            rec["v"]["assigns"] = case["j"]["assigns"]
         try:
             dumped = c.dump(obj)
             rec["dumped"] = cps(dumped)
@@ -538,4 +591,121 @@ def model_cases(printed):
                 cases.append({"op": "rt", "codec": "set", "j": v["x"], "variant": ""})
         else:
             cases.append({"op": "nf", "codec": v["codec"], "j": v["x"], "variant": ""})
+    return cases
+
+
+# ------------------------------------------------------------------------------------------------ second layer
+INT_PROPS = ("max_age", "stale_if_error", "s_maxage", "stale_while_revalidate")
+STR_PROPS = ("no_cache", "private")
+
+
+def random_case2(rng: random.Random, codec: str):
+    """seeded in-domain values for the second-layer codecs (HeaderCodec2.tla)"""
+    v = ""
+    if codec == "cachecontrol":
+        if rng.random() < 0.65:
+            assigns = []
+            for _ in range(rng.choice([0, 1, 2, 3, 4, 6])):
+                name = rng.choice(CC_PROPS["resp"])
+                if name in INT_PROPS:
+                    a = rng.choice([tv(0), tv(rnum(rng)), tv(-rnum(rng) - 1), tv(None), tv(True), tv(False), tv(1)])
+                elif name in STR_PROPS:
+                    a = rng.choice([tv(rtext(rng, 5)), tv(rtext(rng, 5)), tv(""), tv("set-cookie, x-a"), tv(True), tv(None), tv(False)])
+                else:
+                    a = rng.choice([tv(True), tv(True), tv(False), tv(None)])
+                assigns.append([cps(name), a])
+            j = {"cls": "resp", "assigns": assigns, "items": []}
+        else:
+            items = []
+            keys = ["no-store", "max-age", "no-transform", "stale-if-error", "no-cache", "max-stale", "min-fresh", "only-if-cached", "x-ext", "Max-Age"]
+            for key in rng.sample(keys, rng.choice([0, 1, 2, 3, 5])):
+                if key in ("max-age", "stale-if-error", "min-fresh", "max-stale", "Max-Age"):
+                    val = rng.choice([None, str(rnum(rng)), "0", "-1", " 7 ", "+5", "1_0", "007", "abc", "", "5x", "-0"])
+                else:
+                    val = rng.choice([None, None, rtext(rng, 4)])
+                items.append([cps(key), eT(val)])
+            j = {"cls": "req", "assigns": [], "items": items}
+    elif codec == "basic":
+        user = rtext(rng, 6, forbid=":").replace(":", "")
+        pw = rng.choice([rtext(rng, 6, forbid=""), "", ":", "a:b", rtext(rng, 3, forbid="") + ":"])
+        j = {"none": False, "type": cps("basic"), "token": list(NONE), "params": [[cps("username"), cps(user)], [cps("password"), cps(pw)]]}
+    elif codec == "authparam":
+        cls = rng.choice(["authz", "wwwauth"])
+        ty = rng.choice(["bearer", "digest", "digest", "negotiate", "token", rtoken(rng, lower=True)])
+        if cls == "authz" and ty == "basic":
+            ty = "basic2"
+        if rng.random() < 0.4:
+            tok = "".join(rng.choice("abcXYZ0189-._~+/") for _ in range(rng.randint(0, 12))) + "=" * rng.choice([0, 0, 1, 2])
+            if rng.random() < 0.3:
+                tok = rtext(rng, 6).replace("=", "").strip()
+            j = {"cls": cls, "none": False, "type": cps(ty), "token": cps(tok), "params": []}
+        else:
+            n = rng.choice([1, 2, 3, 4])
+            names = rng.sample(["realm", "nonce", "opaque", "qop", "domain", "algorithm", "stale", "uri", "response", "nc", "cnonce", "username"], n) \
+                if rng.random() < 0.7 else _keys(rng, n)
+            j = {"cls": cls, "none": False, "type": cps(ty), "token": list(NONE), "params": [[cps(kk), cps(rtext(rng))] for kk in names]}
+    else:
+        raise KeyError(codec)
+    return {"op": "rt", "codec": codec, "j": j, "variant": v}
+
+
+NF_ATOMS2 = {
+    ("cachecontrol", "req"): ["max-age", "max-stale", "min-fresh", "no-cache", "no-store", "only-if-cached", "=", ",", ", ", " ", "0", "5", "-1", "+3",
+                              "1_0", "x", '"', "Max-Age", "007", "٣"],
+    ("cachecontrol", "resp"): ["max-age", "s-maxage", "no-cache", "private", "public", "immutable", "stale-while-revalidate", "=", ",", ", ", " ", "0",
+                               "60", "-1", "x", '"', '"set-cookie, x"', "No-Cache", "abc"],
+    ("basic", ""): ["Basic ", "basic ", "BASIC  ", "dXNlcjpwYXNz", "YTpi", "Og==", "YTo=", "w7w6eA==", "8J+YgDo=", "=", "==", "Y", "/", "+", " ", "é", "!", "/w=="],
+    ("authparam", "authz"): ["Bearer", "Digest", "digest", "X-a1", " ", "  ", "=", "==", ",", ", ", '"', "\\", "a", "realm", "nonce", "abc.def", "tok~+/"],
+    ("authparam", "wwwauth"): ["Bearer", "Digest", "Basic", "X-a1", " ", "  ", "=", "==", ",", ", ", '"', "\\", "a", "realm", "nonce", "x y", "qop"],
+    ("options2231", ""): ["a/b", "; ", ";", "k", "k2", "*", "=", "'", "%C3", "%A9", "%41", "%22", "%E2%82", "%FF", "utf-8", "UTF-8", "iso-8859-1", "us-ascii",
+                          "big5", "0", "1", '"', "\\", "x", "en"],
+}
+NF_REAL2 = {
+    ("cachecontrol", "req"): ["max-age=0", "max-stale", "max-stale=5, min-fresh=x", "no-cache, no-store, max-age= 7 ", "max-age=5, max-age=6", "MAX-AGE=5"],
+    ("cachecontrol", "resp"): ['private="set-cookie", max-age=10', "no-cache", 'no-cache="a, b", public', "s-maxage=-1, immutable", "max-age"],
+    ("basic", ""): ["Basic dXNlcjpwYXNz", "Basic Og==", "Basic", "Basic  YTpi ", "basic w7w6eDpwOnE=", "Basic dXNlcg=="],
+    ("authparam", "authz"): ["Bearer abc.def==", 'Digest username="a", realm="b c", nonce="c==", uri="/", response="d"', "Token a=b", "X"],
+    ("authparam", "wwwauth"): ['Basic realm="x y"', 'Digest realm="r", nonce="n==", qop="auth", stale=FALSE', "Bearer", "Negotiate abc==", 'Digest realm=r'],
+    ("options2231", ""): ["attachment; filename*=UTF-8''%e2%82%ac%20rates.txt", "a/b; k*0=a; k*1=b", "a/b; k*0*=utf-8''%C3; k*1*=%A9", "a/b; k*=iso-8859-1'en'%E9",
+                          "a/b; k*=big5''%41; j*=%41", "a/b; k*=utf-8''%41; j*=%C3%A9", "a/b; *=x; *0=y; k=v", 'a/b; k*="%41"', "a/b; k*=''x", "a/b; k*=us-ascii''%E9",
+                          "a/b; k*=utf-8''%22", "a/b; k*1=b; k*0=a", "a/b; k=a; k*0=b", "a/b; k*=UTF-8''%FF"],
+}
+
+
+def nf_cases2(rng: random.Random, n_per_codec: int):
+    cases = []
+    for (codec, variant), atoms in NF_ATOMS2.items():
+        texts = list(NF_REAL2.get((codec, variant), []))
+        for _ in range(n_per_codec):
+            t = "".join(rng.choice(atoms) for _ in range(rng.choice([1, 2, 3, 4, 6, 9])))
+            if codec == "options2231" and rng.random() < 0.8:
+                t = "a/b; " + t
+            if codec == "basic" and rng.random() < 0.6:
+                t = "Basic " + t
+            texts.append(t)
+        for t in texts:
+            cases.append({"op": "nf", "codec": codec, "j": cps(t), "variant": variant})
+    return cases
+
+
+def model_cases2(printed):
+    """cases from what MCHeaderCodec2 exported (MC2X_inv / MC2X_nf)"""
+    cases = []
+    for v in printed:
+        if not isinstance(v, dict) or "codec" not in v:
+            continue
+        c, x = v["codec"], v["x"]
+        if v["law"] == "nf":
+            variants = {"cachecontrol": ["req", "resp"], "authparam": [v.get("cls", "authz")], "basic": [""], "options2231": [""]}[c]
+            for var in variants:
+                cases.append({"op": "nf", "codec": c, "j": x, "variant": var})
+        elif c == "cachecontrol":
+            cases.append({"op": "rt", "codec": c, "j": {"cls": "resp", "assigns": x["hist"], "items": []}, "variant": ""})
+        elif c == "basic":
+            cases.append({"op": "rt", "codec": c, "variant": "",
+                          "j": {"none": False, "type": cps("basic"), "token": list(NONE), "params": [[cps("username"), x["user"]], [cps("password"), x["pw"]]]}})
+        elif c == "authparam":
+            cases.append({"op": "rt", "codec": c, "j": x, "variant": ""})
+        elif c == "set":
+            cases.append({"op": "rt", "codec": "set", "j": x, "variant": ""})
     return cases
